@@ -339,6 +339,46 @@ def attempt(data, counters, with_mem=False):
 _sweeps = {}
 
 
+def ce_entries(data):
+    """(offset of the CE entry, block, offset in block, length) of every well-formed Rock Ridge
+    continuation entry of the image (both byte orders agreeing, block inside the image)."""
+    res, pos = [], 0
+    while True:
+        i = data.find(b'CE\x1c\x01', pos)
+        if i < 0 or i + 28 > len(data):
+            return res
+        pos = i + 1
+        bl, ol, ll = struct.unpack_from('<L', data, i + 4)[0], struct.unpack_from('<L', data, i + 12)[0], struct.unpack_from('<L', data, i + 20)[0]
+        bb, ob, lb = struct.unpack_from('>L', data, i + 8)[0], struct.unpack_from('>L', data, i + 16)[0], struct.unpack_from('>L', data, i + 24)[0]
+        if bl == bb and ol == ob and ll == lb and 16 < bl < len(data) // 2048 and ol + ll <= 2048:
+            res.append((i, bl, ol, ll))
+
+
+def ce_tail_fault(data, which, value):
+    """The continuation block shared by the most entries copied behind the end of the image, which
+    then ends right behind the block's last area (a read of any length comes back with what is
+    there); the entries repointed at it; the length of entry `which` of them set to `value`."""
+    ents = ce_entries(data)
+    per = {}
+    for e in ents:
+        per.setdefault(e[1], []).append(e)
+    if not per:
+        return None
+    blk = max(sorted(per), key=lambda b_: len(per[b_]))
+    grp = sorted(per[blk], key=lambda e: e[2])
+    used = max(e[2] + e[3] for e in grp)
+    new = len(data) // 2048
+    b = bytearray(data[:new * 2048] + data[blk * 2048:blk * 2048 + used])
+    for e in grp:
+        b[e[0] + 4:e[0] + 12] = struct.pack('<L', new) + struct.pack('>L', new)
+    e = grp[which % len(grp)]
+    b[e[0] + 20:e[0] + 28] = struct.pack('<L', value) + struct.pack('>L', value)
+    return bytes(b)
+
+
+CE_TAIL_VALUES = (0, 1, 2048, 2049, 0x10000, 0x7fffffff, 0xffffffff)
+
+
 def sweep_list(k):
     """Deterministic enumeration for the small fixed-layout structures of seed image k (headers,
     partition tables, boot info tables, anchors): every byte set to 0xff / 0x7f and every aligned
@@ -377,6 +417,9 @@ def sweep_list(k):
                 out.append((kind, off, 1, 0x7f))
                 if (off - s_) % 4 == 0 and off + 4 <= len(data):
                     out.append((kind, off, 4, 0xffffffff))
+        if ce_entries(data):
+            # continuation entries with hostile lengths whose block is the last thing in the image
+            out = [('ce-tail', w_, 0, v_) for w_ in range(4) for v_ in CE_TAIL_VALUES] + out
         if k == 9:
             out = [('dag', lv, 0, 0) for lv in (2, 5, 9, 12, 15)] + out
         _sweeps[k] = out
@@ -388,6 +431,8 @@ def run_fault(k, cs, counters, sweep=None):
     rng = random.Random(cs)
     if sweep is not None and sweep[0] == 'dag':
         mutated, desc = dag_fault(data, sweep[1]), {'fault': 'dag', 'structure': 'iso-dir', 'levels': sweep[1]}
+    elif sweep is not None and sweep[0] == 'ce-tail':
+        mutated, desc = ce_tail_fault(data, sweep[1], sweep[3]), {'fault': 'ce-tail', 'structure': 'rr-ce', 'entry': sweep[1], 'value': '%#x' % sweep[3]}
     elif sweep is not None:
         kind, off, width, val = sweep
         b = bytearray(data)
